@@ -709,6 +709,9 @@ def r7_no_recursion(rule, root=None):
                 rule.bad("%s::%s|loop" % (ty, name), "%s::%s has no work-list loop" % (ty, name), A.where(fn))
 
 
+from .. import factrules as FR
+
+
 def run(ctx):
     r = ctx.rule("R1", "constructor rewrites are identities over the reals under their premises", 20)
     ctx.guarded(r, r1_rewrites)
@@ -722,3 +725,5 @@ def run(ctx):
     ctx.guarded(r, r6_tree_eq_hash_drop)
     r = ctx.rule("R7", "deep-tree entry points are loops, not recursion", 7)
     ctx.guarded(r, r7_no_recursion)
+    r = ctx.rule("R7f", "[resolved program] deep-tree entry points are in no call-graph cycle", 7)
+    ctx.guarded(r, FR.no_recursion, ctx)
